@@ -775,6 +775,15 @@ func (t *treeRun) stalledChecks() {
 		if n.Sub == nil || n.Mon != nil || n.Reader != "stalled" {
 			continue
 		}
+		closedHere := false
+		if n.ID%2 == 1 && !t.closedByScenario(n) && !detsim.IsClosed(n.Sub.Done()) {
+			closedHere = true
+			// the consumer gives up first and looks at what it was left with afterwards:
+			// what sat in its buffer when it closed is still there to be read
+			detsim.Count("probe:stalled-consumer-closed-before-draining")
+			h.CloseNode(n)
+			detsim.Settle()
+		}
 		h.Drain(n)
 		if w == nil || w.ID > n.ID || h.AnyFilteredAncestorOrSelf(n) || n.Parent != nil && n.Parent.Filtered() {
 			continue // (a witness created after n has not seen what n saw before)
@@ -826,7 +835,7 @@ func (t *treeRun) stalledChecks() {
 				}
 			}
 		}
-		if len(got) < need && !t.closedByScenario(n) {
+		if len(got) < need && (closedHere || !t.closedByScenario(n)) {
 			detsim.Fail("stalled-consumer-lost-too-much", "%s (buffer %d) drained only %d events although %d were published after its creation: it may only lose what exceeds its buffer", n.Name(), capv, len(got), len(ref))
 		}
 	}
